@@ -277,6 +277,13 @@ def run(ctx):
     ctx.attempt(_embedding_dimension_rule, ctx, "R10.11")
     ctx.attempt(stored_frame_rule, ctx)
     ctx.attempt(fibre_derivative_rule, ctx)
+    from .. import beamops as _beamops
+    from ..elems import ElemLib as _ElemLib
+
+    # 'whatever its inclination in 2D or 3D': N, B and the shear operator carry the frame block in the plane AND in space
+    ctx.attempt(_beamops.operator_frame_rule, ctx, _ElemLib(ctx.repo), "R10.14")
+    # 'hyperelastic analyses': the active (fibre) stress is a tensor in the notation of the operators
+    ctx.attempt(active_stress_direction_rule, ctx)
     from . import c09 as _c09
 
     # 'a beam gives the same response in its own axes whatever its inclination': the loads of an inclined member too
@@ -462,3 +469,52 @@ def fibre_derivative_rule(ctx):
             r.ok(f"{label}: d/ds along the fibre")
         else:
             r.fail(f.qualname, f"fibre-derivative:{label}", f.file, f.lineno, "_GroupElem.Get_dN_e_pg", f"SEG2 {label}: sum_a dN_a (X_a . i) = {tot} instead of 1: the derivative is taken along the global x axis while the member frame (line.unitVector) points the other way; strain measures that are odd in the abscissa (Timoshenko shear v' - rz) get the wrong sign relative to the frame: a rigid rotation of the member stores shear energy")
+
+
+def active_stress_direction_rule(ctx, rid="R10.15"):
+    """'vectors rotated': the active stress tau (T x T) of a hyperelastic law is a TENSOR built from the fibre direction.
+    `Set_active_stress_vec` + `Compute_active_stress` are interpreted on a symbolic unit direction T: the vector they
+    hand to the operators must be the Kelvin-Mandel vector of tau T T^T (shear entries carry sqrt 2: only then is the
+    6-vector rotated by the orthogonal matrix of R10.2 when the fibre is rotated)."""
+    from ..repo import FuncInfo
+
+    repo = ctx.repo
+    ci = repo.cls("EasyFEA.Models.HyperElastic._laws._HyperElastic")
+    fS = ci.methods["Set_active_stress_vec"]
+    fC = ci.methods["Compute_active_stress"]
+    r = ctx.rule(rid, "active stress: the stored direction tensor and the stress handed to the operators are the Kelvin-Mandel vector of tau T T^T for a symbolic unit fibre T (so that rotating the fibre rotates the stress)", min_instances=2)
+    T = [Poly.var(f"T{k}") for k in range(3)]
+    tau = Poly.var("tau")
+
+    def hook(fn, args, kwargs):
+        if isinstance(fn, FuncInfo) and fn.name == "Normalize":
+            return args[0]  # T is taken of unit length
+        return fe_hook_full(fn, args, kwargs)
+
+    from ..femchain import XFe
+
+    I = Interp(repo)
+    I.call_hook = hook
+    obj = XObj(ci, dict(active_stress=tau))
+    want = kelvin_of([[T[a] * T[b] for b in range(3)] for a in range(3)])
+    for label, f, scale in (("stored direction tensor", fS, Poly.const(1)), ("Compute_active_stress", fC, tau)):
+        r.instance(fn=f.qualname)
+        try:
+            if f is fS:
+                I.call_function(f, [XFe((1, 1, 3), list(T))], self_obj=obj)
+                got = obj.attrs.get(ci.mangle("__TxT"))
+            else:
+                got = I.call_function(f, [SimpleNamespace(_Slice_Vector=lambda v: v)], self_obj=obj)
+        except XRaise as e:
+            r.fail(f.qualname, "raises", f.file, f.lineno, f.name, f"{label}: raises {e}")
+            continue
+        got = XArray.from_nested(got) if got is not None else None
+        if got is None or got.shape != (1, 1, 6):
+            r.fail(f.qualname, "shape", f.file, f.lineno, f.name, f"{label}: {'nothing stored' if got is None else got.shape}, expected (Ne, nPg, 6)")
+            continue
+        bad = [(k, got.data[k]) for k in range(6) if not is_zero(got.data[k] - scale * want[k])]
+        if bad:
+            k, g = bad[0]
+            r.fail(f.qualname, "kelvin", f.file, f.lineno, f.name, f"{label}: component {k} is {g!r}, the Kelvin-Mandel vector of tau T T^T has {scale * want[k]!r}: the active stress is not the tensor tau T x T in the notation the operators use (its shear part does not follow a rotation of the fibre)")
+        else:
+            r.ok(f"{label} == Kelvin-Mandel vector of {'tau ' if f is fC else ''}T T^T")
